@@ -29,6 +29,7 @@ type FuncInfo struct {
 }
 
 type Engine struct {
+	mutexKeys map[string]bool // heap keys of mutex fields operated on (kept across havoc)
 	repo, verif string
 	fset        *token.FileSet
 	pkgs        map[string]*packages.Package // by short path
@@ -300,6 +301,60 @@ func constLit(info *types.Info, cl *ast.CompositeLit) bool {
 	return true
 }
 
+// synthLockContracts: for every `lockdiscipline pkg.Type mu props P` directive, each method of
+// the type (with a body) gets the contract variant `<method>#locks`:
+//   assert locks; only lock-discipline obligations; the receiver's mutex is free at entry and
+//   at every return (held at both for the methods listed under `held:`); effects unconstrained.
+// Reads/writes of the fields declared guarded_by the mutex are then obligations of each method.
+func (eng *Engine) synthLockContracts() {
+	for _, ld := range eng.cs.Locks {
+		var refs []string
+		for ref, fi := range eng.funcs {
+			if fi.Sig == nil || fi.Sig.Recv() == nil || fi.Body == nil || fi.Decl == nil {
+				continue
+			}
+			n := namedOf(fi.Sig.Recv().Type())
+			if n == nil || typeKey(n) != ld.Type {
+				continue
+			}
+			refs = append(refs, ref)
+		}
+		sort.Strings(refs)
+		var b strings.Builder
+		for _, ref := range refs {
+			fi := eng.funcs[ref]
+			name := fi.Decl.Name.Name
+			if ld.Skip[name] {
+				continue
+			}
+			recv := ""
+			if fi.Decl.Recv != nil && len(fi.Decl.Recv.List) > 0 && len(fi.Decl.Recv.List[0].Names) > 0 {
+				recv = fi.Decl.Recv.List[0].Names[0].Name
+			}
+			if recv == "" || recv == "_" {
+				continue
+			}
+			if _, isPtr := fi.Sig.Recv().Type().Underlying().(*types.Pointer); !isPtr {
+				continue
+			}
+			state := "== 0"
+			what := "lock-free"
+			if ld.Held[name] {
+				state = "!= 0"
+				what = "lock-held-by-the-caller"
+			}
+			fmt.Fprintf(&b, "//@ contract %s#locks props %s havoc\n", ref, strings.Join(ld.Props, ","))
+			fmt.Fprintf(&b, "//@   assert locks\n//@   assert only none\n")
+			fmt.Fprintf(&b, "//@   requires %s != nil\n", recv)
+			fmt.Fprintf(&b, "//@   requires[%s-at-entry] %s.%s %s\n", what, recv, ld.Mutex, state)
+			fmt.Fprintf(&b, "//@   ensures[%s-at-exit] %s.%s %s\n", what, recv, ld.Mutex, state)
+		}
+		if err := eng.cs.loadContractText("lockdiscipline "+ld.Type, ld.Pkg, b.String()); err != nil {
+			eng.cs.Errors = append(eng.cs.Errors, err.Error())
+		}
+	}
+}
+
 func (eng *Engine) findFunc(ref string) *FuncInfo {
 	if k := strings.Index(ref, "#"); k >= 0 {
 		ref = ref[:k]
@@ -403,6 +458,18 @@ func (eng *Engine) loadContracts() {
 			eng.cs.Errors = append(eng.cs.Errors, err.Error())
 		}
 	}
+	eng.synthLockContracts()
+	if eng.mutexKeys == nil {
+		eng.mutexKeys = map[string]bool{}
+	}
+	for fk, mu := range eng.cs.Guarded {
+		if k := strings.LastIndex(fk, "."); k > 0 {
+			eng.mutexKeys[heapKey(fk[:k], mu)] = true
+		}
+	}
+	for _, ld := range eng.cs.Locks {
+		eng.mutexKeys[heapKey(ld.Type, ld.Mutex)] = true
+	}
 	eng.cs.parseAll()
 	for _, t := range eng.cs.Owned {
 		eng.ownedTypes[t] = true
@@ -485,6 +552,7 @@ type Exec struct {
 	boundMake bool
 	guardN   map[string]int
 	ownsN    int
+	regionStart token.Pos // where the verified region (body or fragment) begins: variables declared before it have an entry value
 	finalN   int
 	written  map[string]bool
 	havocGhosts bool
@@ -726,11 +794,13 @@ func (eng *Engine) verify(c *Contract, prop string) (rep *FuncReport, err error)
 	st := &State{vars: map[types.Object]*Val{}, heap: map[string]string{}, epoch: "0"}
 	ex.entry = &State{vars: map[types.Object]*Val{}, heap: map[string]string{}, epoch: "0"}
 	bodyPos := fi.Body.Lbrace + 1
+	ex.regionStart = bodyPos
 	var stmts []ast.Stmt = fi.Body.List
 	var pre ast.Stmt
 	if c.Frag != "" {
 		var ok bool
 		pre, stmts, bodyPos, ok = findFragment(fi, c.Frag)
+		ex.regionStart = bodyPos
 		if !ok {
 			return rep, fmt.Errorf("fragment %q of %s not found", c.Frag, c.Func)
 		}
